@@ -138,9 +138,16 @@ func (r *Receiver) SegmentHandlerFunc(w http.ResponseWriter, req *http.Request) 
 	masterSegDur := ch.masterSegDuration
 	masterTimeShift := ch.masterTimeShift
 	masterSeqNrShift := ch.masterSeqNrShift
+	nrRestarts := ch.nrRestarts
+	if ch.hasNewMaster() {
+		// The channel will start again before this segment is handled. Receive it like before a start.
+		masterTimescale, masterSegDur, masterTimeShift, masterSeqNrShift = 0, 0, 0, 0
+		nrRestarts++
+	}
 	ch.mu.RUnlock()
 
 	rsd := &recSegData{name: stream.trName,
+		nrRestarts:      nrRestarts,
 		shouldBeShifted: masterTimeShift != 0 || masterSeqNrShift != 0,
 	}
 
